@@ -1,5 +1,6 @@
 """C20 — outcome does not depend on how the transport chops or delays bytes."""
 from lib import *  # noqa
+import C10
 
 TECHNIQUE = "buffer-tag typestate over the read loop (value-set + typestate dataflow), edge-cut gates for complete-frame delivery, provenance of the consumed byte count in the flush loop, guard-fact checks of the UDP synthetic framing and zero-length/TC handling"
 LEVEL_TEXT = ("static: decides the framing protocol in both directions on every path: (read) after tagging the input buffer an incomplete frame is "
@@ -411,3 +412,5 @@ def run(prog, R, tier):
     r_udpframe(prog, R)
     r_flush(prog, R)
     r_zero_tc(prog, R)
+    # a partial TCP write must leave the socket registered for write events, otherwise the tail of the query is never sent
+    C10.r_announce(prog, R, rid="R-C20-WRITEINTEREST")
